@@ -11,6 +11,8 @@ PROP = [  # (substring of the commit subject, property ids)
     ("unit_tangent_towards", "C12 (also C13)"), ("Subspace.sphere_parameters", "C14"),
     ("Hyperplane built from an array", "C15"), ("TangentVector.angle", "C13"), ("arc_include", "C14 (also C18)"),
     ("__setitem__ recomputes", "C11"), ("combine concatenates", "C11"),
+    ("diagonalize_form(reverse=True)", "C18"), ("spacelike_to completes", "C02 (also C15, C18)"),
+    ("Hyperplane passes its normal vectors", "C15"),
     ("symmetric_square", "C05"), ("_build_in_dict", "C09"), ("add_edges", "C09"), ("end_state", "C06"),
     ("from_angle", "C12"), ("standard_rotation", "C12"), ("integer", "C12"), ("CP1Disk", "C20"), ("intersects", "C20"),
 ]
